@@ -317,6 +317,13 @@ static int v_rot(uint64_t v) { return (v >> 32) >= 1; }
 static int o_maxlen_set(struct upipe *u, uint64_t v) { return upipe_set_max_length(u, (unsigned)v); }
 static int o_maxlen_get(struct upipe *u, uint64_t *v) { unsigned m = (unsigned)SENTINEL; int e = upipe_get_max_length(u, &m); *v = m; return e; }
 static uint64_t g_maxlen(struct vh_rng *r) { return vh_below(r, 6); }
+static int o_sync_set(struct upipe *u, uint64_t v) { return upipe_ts_sync_set_sync(u, (int)(int64_t)v); }
+static int o_sync_get(struct upipe *u, uint64_t *v) { int n = (int)SENTINEL; int e = upipe_ts_sync_get_sync(u, &n); *v = (uint64_t)(int64_t)n; return e; }
+static uint64_t g_sync(struct vh_rng *r) { return vh_chance(r, 1, 4) ? (uint64_t)(int64_t)vh_range(r, -2, 1) : 2 + vh_below(r, 5); }
+static int v_sync(uint64_t v) { return (int64_t)v >= 2; }
+static uint64_t g_tssize(struct vh_rng *r) { static const unsigned z[] = { 188, 192, 204, 188 }; return z[vh_below(r, 4)]; }
+static const struct nopt opts_ts_sync[] = { { "sync", o_sync_set, o_sync_get, g_sync, v_sync }, { "output_size", o_agg_set, o_agg_get, g_tssize, NULL } };
+static const struct nopt opts_ts_size[] = { { "output_size", o_agg_set, o_agg_get, g_tssize, NULL } };
 static const struct nopt opts_rotate[] = { { "rotate", o_rot_set, o_rot_get, g_rot, v_rot } };
 static const struct nopt opts_maxlen[] = { { "max_length", o_maxlen_set, o_maxlen_get, g_maxlen, NULL } };
 
@@ -535,8 +542,8 @@ static const struct desc catalogue[] = {
     { "burst", upipe_burst_mgr_alloc, K_HOLD, "block.", "pic.", NULL, NULL, x_identity, false, true, NULL, 0, true },
     /* pipes that parse their input: generic oracles (C01 ownership, C04 life cycle and negotiation) */
     { "m3u_reader", upipe_m3u_reader_mgr_alloc, K_OTHER, "block.", "pic.", NULL, NULL, NULL, true, false, NULL, 0, false, gen_m3u_text },
-    { "ts_check", upipe_ts_check_mgr_alloc, K_OTHER, "block.", "pic.", NULL, NULL, NULL, true, false, NULL, 0, false, gen_ts_stream },
-    { "ts_sync", upipe_ts_sync_mgr_alloc, K_OTHER, "block.", "pic.", NULL, NULL, NULL, true, false, NULL, 0, false, gen_ts_stream },
+    { "ts_check", upipe_ts_check_mgr_alloc, K_OTHER, "block.", "pic.", NULL, ctl_nopt, NULL, true, false, opts_ts_size, 1, false, gen_ts_stream },
+    { "ts_sync", upipe_ts_sync_mgr_alloc, K_OTHER, "block.", "pic.", NULL, ctl_nopt, NULL, true, false, opts_ts_sync, 2, false, gen_ts_stream },
     { "ts_align", upipe_ts_align_mgr_alloc, K_OTHER, "block.", "pic.", NULL, NULL, NULL, true, false, NULL, 0, false, gen_ts_stream },
     { "ts_decaps", upipe_ts_decaps_mgr_alloc, K_OTHER, "block.mpegts.", "block.", NULL, NULL, NULL, true, false, NULL, 0, false, gen_ts_packet },
     { "ts_pid_filter", upipe_ts_pidf_mgr_alloc, K_OTHER, "block.mpegts.", "block.", NULL, NULL, NULL, true, false, NULL, 0, false, gen_ts_packet },
